@@ -40,7 +40,8 @@ def judge(rec, opts):
             f = replay.compare(rec, got)
             if f is not None:
                 shape = "entered-via-" + main if main in ("inc", "ren") else ("mixed-chains" if main == "mix1" else "chain")
-                out.append((f"inherit:{f['clause']}:{shape}:{lname}:{mode}", f))
+                esc = ":autoescape" if rec["cfg"].get("autoescape") else ""
+                out.append((f"inherit:{f['clause']}:{shape}:{lname}:{mode}{esc}", f))
     return out
 
 
@@ -50,19 +51,21 @@ def check(tier: str) -> int:
                         "children start with their extends tag (text before it is outside the generated space)",
                         "TLC, Json/IOUtils modules, CPython"]
     depth = 3 if tier == "thorough" else 2
-    consts = {"MaxDepth": str(depth), "Focus": '"inherit"'}
-    r = tlc.run("LiquidInherit", tlc.cfg_text(constants=consts, invariants=["RefinesReference", "Rejected", "Circular", "Export"]),
-                tag="inherit", extra_files={"concrete.json": gen.CONCRETE}, timeout=7000)
-    try:
-        if r.error:
-            chk.machinery_error = r.error
-        elif r.invariant_violated:
-            chk.spec_violation(r, "LiquidInherit")
-        else:
-            chk.tlc(r, f"all chains of depth <= {depth} over 2 block names x {{omit, plain, super, required}} x nesting, + malformed/circular/dangling")
-            gen.replay_file(chk, r.workdir / "out.ndjson", "harness.c08", "judge")
-    finally:
-        r.cleanup()
+    # auto escape off, then on (the data holds markup; block.super is rendered output and is not escaped again)
+    for esc in ("FALSE", "TRUE"):
+        consts = {"MaxDepth": str(depth), "Focus": '"inherit"' if esc == "FALSE" else '"inherit-escape"', "AutoEsc": esc}
+        r = tlc.run("LiquidInherit", tlc.cfg_text(constants=consts, invariants=["RefinesReference", "Rejected", "Circular", "Export"]),
+                    tag="inherit" + esc[0], extra_files={"concrete.json": gen.CONCRETE}, timeout=7000)
+        try:
+            if r.error:
+                chk.machinery_error = r.error
+            elif r.invariant_violated:
+                chk.spec_violation(r, "LiquidInherit")
+            else:
+                chk.tlc(r, f"all chains of depth <= {depth} over 2 block names x {{omit, plain, super, required}} x nesting, + malformed/circular/dangling; auto escape {esc}")
+                gen.replay_file(chk, r.workdir / "out.ndjson", "harness.c08", "judge")
+        finally:
+            r.cleanup()
     return chk.finish()
 
 
